@@ -43,14 +43,18 @@ func (m *macSpec) String() string {
 	return fmt.Sprintf("%s key=%x iv=%x", m.name(), m.key, m.iv)
 }
 
+// build: private copies of key and IV, overwritten once the constructor has returned (Reset and Finish re-initialise
+// the object later: it must own what it needs for that).
 func (m *macSpec) build() (zuc.EIA, error) {
+	key, iv := append([]byte{}, m.key...), append([]byte{}, m.iv...)
+	defer scribble(key, iv)
 	switch m.alg {
 	case "eia3iv":
-		return zuc.NewHash(m.key, m.iv)
+		return zuc.NewHash(key, iv)
 	case "eia3":
-		return zuc.NewEIAHash(m.key, m.count, m.bearer, m.direction)
+		return zuc.NewEIAHash(key, m.count, m.bearer, m.direction)
 	}
-	return zuc.NewHash256(m.key, m.iv, m.tag)
+	return zuc.NewHash256(key, iv, m.tag)
 }
 
 func (m *macSpec) ref(msg []byte, nbits int) ([]byte, error) {
